@@ -69,14 +69,17 @@ Print Assumptions C18_ql_visit_bytes.
 (* quote_ident, all flag combinations: one token, text/value = the name; a keyword token left
    bare with allow_reserved=False is not reserved (except reserved __names__, which are outside
    ql_ident_dom: no quoted form expresses them); with
-   allow_num an all-digit name is kept as the integer token of the same digits *)
-Theorem C18_ql_quote_ident_partial : forall U force ar an s k,
+   allow_num an all-digit name is kept as the integer token of the same digits; with
+   allow_partial_reserved=False a bare keyword token is never union / except / intersect (those are
+   back-quoted and read as Ident) *)
+Theorem C18_ql_quote_ident_partial : forall U force ar an apr s k,
   ql_ident_dom s = true -> ident_compat U s = true -> num_compat U s = true ->
   ql_num_boundary U k = true ->
   (an = true -> dec_value s < 18446744073709551616) ->
-  exists t, ql_lex1 U (ql_quote_ident U force ar an s ++ k) = LexOk t k /\
+  exists t, ql_lex1 U (ql_quote_ident U force ar an apr s ++ k) = LexOk t k /\
     (t = TIdent s
-     \/ (t = TKeyword s /\ (ar = false -> ql_kw_reserved s = true -> dunder (map ascii_lower s) = true))
+     \/ (t = TKeyword s /\ (ar = false -> ql_kw_reserved s = true -> dunder (map ascii_lower s) = true)
+                        /\ (apr = false -> in_strs (map ascii_lower s) g_kw_partial = false))
      \/ (an = true /\ py_num_match U s = true /\ t = TInt (dec_value s))).
 Proof. exact p_ql_quote_ident. Qed.
 Print Assumptions C18_ql_quote_ident_partial.
@@ -106,7 +109,7 @@ Print Assumptions C18_ascii_compat.
 Theorem C18_ql_quote_ident_refuted : forall U,
   py_alnum_hi U 178 = true -> py_dec_hi U 178 = false -> rs_alpha_hi U 178 = false ->
   exists s, ql_ident_dom s = true /\
-    ql_quote_ident U false true false s = s /\ ql_lex1 U (s ++ []) = LexErr.
+    ql_quote_ident U false true false true s = s /\ ql_lex1 U (s ++ []) = LexErr.
 Proof. exact r_ql_quote_ident. Qed.
 Print Assumptions C18_ql_quote_ident_refuted.
 
@@ -120,7 +123,7 @@ Print Assumptions C18_ql_param_to_str_refuted.
 Theorem C18_ql_quote_ident_num_refuted : forall U,
   py_dec_hi U 1635 = true -> rs_alpha_hi U 1635 = false ->
   exists s, ql_ident_dom s = true /\
-    ql_quote_ident U false true true s = s /\ ql_lex1 U (s ++ []) = LexOk (TInt 1) [1635].
+    ql_quote_ident U false true true true s = s /\ ql_lex1 U (s ++ []) = LexOk (TInt 1) [1635].
 Proof. exact r_ql_quote_ident_num. Qed.
 Print Assumptions C18_ql_quote_ident_num_refuted.
 
@@ -169,7 +172,9 @@ Example ex_repr : ql_visit_constant U0 [133; 8238; 39] =
 Proof. split; reflexivity. Qed.
 Example ex_ident : ql_ident_dom [115; 101; 108; 101; 99; 116] = true
   /\ ident_compat U0 [115; 101; 108; 101; 99; 116] = true
-  /\ ql_quote_ident U0 false false false [115; 101; 108; 101; 99; 116] = [96; 115; 101; 108; 101; 99; 116; 96]
+  /\ ql_quote_ident U0 false false false true [115; 101; 108; 101; 99; 116] = [96; 115; 101; 108; 101; 99; 116; 96]
+  /\ ql_quote_ident U0 false false false false [117; 110; 105; 111; 110] = [96; 117; 110; 105; 111; 110; 96]
+  /\ ql_quote_ident U0 false false false true [117; 110; 105; 111; 110] = [117; 110; 105; 111; 110]
   /\ ql_num_boundary U0 [32; 120] = true.
 Proof. repeat split; reflexivity. Qed.
 Example ex_param : ql_param_dom [97; 32; 98] = true /\ param_compat U0 [97; 32; 98] = true
